@@ -3,12 +3,13 @@ import re
 from vcore import Case, Harness
 
 ID = 'C09'
-GEN = ['Hex', 'TraceState']
-LEAN_TARGETS = ['OtelVerif.Props.C09']
+GEN = ['Hex', 'TraceState', 'TabHex', 'TabKv']
+LEAN_TARGETS = ['OtelVerif.Props.C09', 'OtelVerif.Props.TabHex', 'OtelVerif.Props.TabHexB', 'OtelVerif.Props.TabW3c', 'OtelVerif.Props.TabKv']
 THEOREMS = ['Otel.C09.' + t for t in (
     'traceId_table_lower', 'spanId_table_lower', 'traceFlags_table_lower', 'isHexDigit_iff', 'hexToInt_eq_digitVal',
     'extract_of_wellformed', 'wellformed_of_extract', 'extract_iff_wellformed', 'extract_some_valid',
-    'inject_invalid_none', 'inject_shape', 'extract_inject')]
+    'inject_invalid_none', 'inject_shape', 'extract_inject')] + ['Otel.Tab.' + t for t in (
+    'tab_hexToInt', 'tab_isValidHex1', 'tab_hexToBinary1', 'tab_hexToBinary2_digits', 'tab_hexToBinaryShort', 'tab_traceIdLower', 'tab_spanIdLower', 'tab_flagsLower', 'tab_flagsIsSampled', 'tab_flagsIsRandom', 'tab_hexToBinary2_cross', 'tab_tpFlagsByte', 'tab_tpInjectFlags', 'tab_tpVersion', 'tab_trimDrops', 'tab_trimShort', 'tab_trim3Short', 'tab_kvTokSep', 'tab_kvTokShort')]
 HARNESSES = [Harness('f_c09', ['harness/f_c09.cc'])]
 H = 'f_c09'
 RULE = ('inject/roundtrip: random and edge ids x all 256 flag bytes x canonical trace states; extract: valid headers, '
